@@ -50,9 +50,9 @@ type part struct {
 
 func partsFor(c *kit.Ctx) []part {
 	return []part{
-		{name: "patch", n: c.N(100000, 2200000), chunk: 10000, run: runPatchCase},
-		{name: "law", n: c.N(110000, 2800000), chunk: 10000, run: runLawCase},
-		{name: "composer", n: c.N(700, 16000), chunk: 350, run: runComposerCase},
+		{name: "patch", n: c.N(100000, 1000000), chunk: 10000, run: runPatchCase},
+		{name: "law", n: c.N(110000, 1300000), chunk: 10000, run: runLawCase},
+		{name: "composer", n: c.N(700, 8000), chunk: 350, run: runComposerCase},
 		{name: "star", n: c.N(4, 8), chunk: 8, run: runStarCase},
 	}
 }
@@ -533,7 +533,7 @@ func main() {
 			}
 		}
 	}
-	c.Floor = c.N(20000, 400000)
+	c.Floor = c.N(20000, 200000)
 	c.Extra("parts", map[string]any{"patch_cases": parts[0].n, "law_cases": parts[1].n, "composer_cases": parts[2].n})
 	c.Finish()
 }
